@@ -22,7 +22,7 @@ sequences and is not decided.
 from __future__ import annotations
 
 import ast
-from typing import Dict, List, Optional, Set
+from typing import Tuple, Dict, List, Optional, Set
 
 from vzstatic import cfg as cfgmod
 from vzstatic import flow
@@ -54,11 +54,16 @@ def run(ctx) -> None:
   ctx.rule('R4', 'trial filter plumbing in both supporters and TrialFilter', 9)
   ctx.rule('R5', 'undecodable state: cache cleared together with the new designer', 1)
   ctx.rule('R6', 'the service builds a fresh policy per request: the policy factory keeps no policies between calls', 1)
+  ctx.rule('R7', 'optional filters are present-tested with `is None`: an empty id set selects nothing, it is not "no filter"', 4)
+  ctx.rule('R8', 'ListTrials hands the algorithm every stored trial: no truncated page without callers following next_page_token', 1)
+  ctx.import_rules('C09', {'R3'}, 'R9', 'a stored INFEASIBLE trial reaches the algorithm as a completed one whatever its reason text (no truthiness of plain strings)')
   r1_base_policy(ctx)
   r2_loader(ctx)
   r3_stateless(ctx)
   r4_filters(ctx)
   r6_fresh_policy(ctx)
+  r7_presence(ctx)
+  r8_complete_listing(ctx)
 
 
 def _calls(node, name_suffix):
@@ -360,6 +365,133 @@ def r4_filters(ctx) -> None:
   missing = [x for x in frags if x not in t2]
   ctx.check(not missing, 'R4', 'InRamPolicySupporter.GetTrials applies every filter', fr.node, 'status / min / max / ids',
             f'missing tests: {missing}', construct=str(missing), func=fr.qualname)
+
+
+# ----------------------------------------------------------------------- R7
+def _presence_tests(fn: ast.AST, subject: str) -> List[Tuple[ast.AST, bool]]:
+  """(test node, ok?) for every condition deciding on `subject` alone: ok iff it is an `is (not) None` comparison."""
+  out = []
+  for x in ast.walk(fn):
+    t = x.test if isinstance(x, (ast.If, ast.IfExp, ast.While)) else None
+    if t is None:
+      continue
+    parts = t.values if isinstance(t, ast.BoolOp) else [t]
+    for p_ in parts:
+      q = p_.operand if isinstance(p_, ast.UnaryOp) and isinstance(p_.op, ast.Not) else p_
+      if unparse(q, 0) == subject:
+        out.append((p_, False))
+      elif isinstance(q, ast.Compare) and unparse(q.left, 0) == subject and len(q.ops) == 1 \
+          and isinstance(q.ops[0], (ast.Is, ast.IsNot)) and isinstance(q.comparators[0], ast.Constant) and q.comparators[0].value is None:
+        out.append((p_, True))
+  return out
+
+
+def r7_presence(ctx) -> None:
+  tfc = ctx.index.need_class('vizier._src.pyvizier.shared.trial.TrialFilter')
+  mod = tfc.module
+  n = 0
+  # (a) converters of the set-valued fields
+  for st in tfc.node.body:
+    if not (isinstance(st, ast.AnnAssign) and isinstance(st.target, ast.Name) and isinstance(st.value, ast.Call)):
+      continue
+    fld = st.target.id
+    if 'FrozenSet' not in unparse(st.annotation, 0) and 'Set' not in unparse(st.annotation, 0):
+      continue
+    conv = next((k.value for k in st.value.keywords if k.arg == 'converter'), None)
+    if conv is None:
+      continue
+    fn = None
+    param = None
+    if isinstance(conv, ast.Lambda):
+      fn, param = conv, conv.args.args[0].arg
+    elif isinstance(conv, ast.Name) and conv.id in mod.functions:
+      f = mod.functions[conv.id]
+      fn, param = f.node, f.params[0]
+    if fn is None:
+      raise AnalysisError(f'TrialFilter.{fld}: converter `{unparse(conv, 40)}` not resolved')
+    tests = _presence_tests(fn, param)
+    n += 1
+    bad = [t for t, ok in tests if not ok]
+    ctx.check(bool(tests) and not bad, 'R7', f'TrialFilter.{fld} converter', st,
+              'None <-> no filter decided by `is None`',
+              f'the converter of TrialFilter.{fld} decides "no filter" by the truthiness of its argument (`{unparse(bad[0], 40) if bad else "?"}`): '
+              'an *empty* set - e.g. "every id above the incorporated ones" when the newest trials were deleted - turns into None, and the '
+              'filter then matches every trial: completed trials are delivered to the algorithm a second time',
+              construct=f'{fld}:truthy-converter', func=tfc.qualname)
+  # (b) __call__ and the in-RAM supporter
+  call = tfc.methods['__call__']
+  for fld in ('ids', 'min_id', 'max_id', 'status'):
+    tests = _presence_tests(call.node, f'self.{fld}')
+    bad = [t for t, ok in tests if not ok]
+    n += 1
+    ctx.check(bool(tests) and not bad, 'R7', f'TrialFilter.__call__: presence of {fld}', call.node,
+              '`is not None`', f'`self.{fld}` is tested by truthiness: an empty set / id 0 counts as "not set"',
+              construct=f'{fld}:truthy-call', func=call.qualname)
+  ram = ctx.index.need_class('vizier._src.pythia.local_policy_supporters.InRamPolicySupporter')
+  fr = ram.methods['GetTrials']
+  for arg in ('trial_ids', 'min_trial_id', 'max_trial_id'):
+    tests = _presence_tests(fr.node, arg)
+    bad = [t for t, ok in tests if not ok]
+    n += 1
+    ctx.check(bool(tests) and not bad, 'R7', f'InRamPolicySupporter.GetTrials: presence of {arg}', fr.node,
+              '`is not None`', f'`{arg}` is tested by truthiness: an empty id collection / id 0 counts as "no filter"',
+              construct=f'{arg}:truthy-ram', func=fr.qualname)
+  sup = ctx.index.need_class('vizier._src.service.service_policy_supporter.ServicePolicySupporter')
+  f = sup.methods['GetTrials']
+  for arg in ('trial_ids', 'min_trial_id', 'max_trial_id'):
+    tests = _presence_tests(f.node, arg)
+    bad = [t for t, ok in tests if not ok]
+    ctx.check(not bad, 'R7', f'ServicePolicySupporter.GetTrials: presence of {arg}', f.node,
+              'passed through unchanged (or tested with `is None`)',
+              f'`{arg}` is tested by truthiness before it reaches the TrialFilter', construct=f'{arg}:truthy-svc', func=f.qualname)
+
+
+# ----------------------------------------------------------------------- R8
+def r8_complete_listing(ctx) -> None:
+  from vzstatic.svc import Svc
+  svc = Svc(ctx)
+  fi = svc.rpcs.get('ListTrials')
+  if fi is None:
+    raise AnalysisError('ListTrials RPC not found')
+  resp = [c for c in flow.calls_in(fi.node) if (dotted(c.func) or '').endswith('ListTrialsResponse')]
+  if not resp:
+    raise AnalysisError('ListTrials: response construction not found')
+  g = cfgmod.CFG(fi.node)
+  prov = flow.Provenance(g, on_call=lambda c: 'all', on_attr=lambda a: 'through')
+  paged = any(isinstance(x, (ast.Assign, ast.AugAssign)) and any('next_page_token' in unparse(t, 0) for t in (x.targets if isinstance(x, ast.Assign) else [x.target]))
+              for x in ast.walk(fi.node)) or any(k.arg == 'next_page_token' for c in resp for k in c.keywords)
+  sliced = None
+  full = False
+  for c in resp:
+    for k in c.keywords:
+      if k.arg == 'trials':
+        o = prov.origins(k.value, g.node_of(c))
+        full = full or any(kk == 'call' and svc.ds_call(v) == 'list_trials' for kk, v in o)
+        for x in ast.walk(k.value):
+          if isinstance(x, ast.Subscript) and isinstance(x.slice, ast.Slice):
+            sliced = x
+        for nm in flow.names_in(k.value):
+          for d in prov.rd.at(g.node_of(c), nm):
+            if d.value is not None:
+              for x in ast.walk(d.value):
+                if isinstance(x, ast.Subscript) and isinstance(x.slice, ast.Slice):
+                  sliced = x
+                if isinstance(x, ast.Call) and (dotted(x.func) or '').endswith('islice'):
+                  sliced = x
+  callers_follow = True
+  if paged or sliced is not None:
+    for q in ('vizier._src.service.service_policy_supporter', 'vizier._src.service.vizier_client'):
+      mi = ctx.index.need_module(q)
+      for fn in [f for f in ast.walk(mi.tree) if isinstance(f, ast.FunctionDef)]:
+        if any(isinstance(c, ast.Call) and isinstance(c.func, ast.Attribute) and c.func.attr == 'ListTrials' for c in ast.walk(fn)):
+          if 'next_page_token' not in unparse(fn, 0):
+            callers_follow = False
+  ctx.check(full and (sliced is None and not paged or callers_follow), 'R8', 'ListTrials returns every stored trial', fi.node,
+            'response.trials is the complete datastore listing',
+            ('ListTrials returns one page (`' + (unparse(sliced, 40) if sliced is not None else 'next_page_token') + '`) but the policy supporter / client '
+             'read a single response and never follow next_page_token: trials beyond the first page are never delivered to '
+             'the algorithm (neither as active nor as completed)') if full else 'response.trials does not derive from datastore.list_trials',
+            construct='paged-listing', func=fi.qualname)
 
 
 _DP = 'vizier/_src/algorithms/policies/designer_policy.py'
